@@ -1,66 +1,213 @@
 /-
-  C03 — the Go-side boundaries are balanced (relative to well-behaved sub-interpreters, `HypG`/`HypA`).
+  C03 — per-node lemmas: bracketing frame operations, the probe, vm.try.
 -/
 import GojaModel.C03.Lemmas2
 
 namespace GojaModel.C03
 
-theorem mkApiGood {s : Vm} {r : Res}
-    (h : r.1 ≠ .stuck ∧ r.1 ≠ .normal ∧ (r.1 = .thrown → True) ∧
-      r.2.sp = s.sp ∧ r.2.regs = s.regs ∧ r.2.stash = s.stash ∧
-      r.2.privEnv = s.privEnv ∧ r.2.callStack = s.callStack ∧ r.2.tryStack = s.tryStack ∧
-      (∃ x, r.2.iterStack = s.iterStack ++ x) ∧ (∃ x, r.2.refStack = s.refStack ++ x) ∧
-      (r.1 ≠ .wrecked → r.2.iterStack = s.iterStack ∧ r.2.refStack = s.refStack)) : ApiGood s r := by
-  obtain ⟨a1, _, _, a4, a5, a6, a7, a8, a9, a10, a11, a12⟩ := h
-  exact ⟨a1, ⟨a4, a5, a6, a7, a8, a9, a10, a11⟩,
-    fun hw => ⟨a4, a5, a6, a7, a8, a9, (a12 hw).1, (a12 hw).2⟩⟩
+theorem ApiGood.toGood {s : Vm} {r : Res} (h : ApiGood s r) : Good s r := by
+  obtain ⟨h1, h2, h3⟩ := h
+  refine ⟨?_, h3⟩
+  unfold GoodCtl
+  cases hr : r.1 with
+  | normal => simpa using h2
+  | thrown => simpa using h2.toExt true
+  | fatal => simpa using h2.toExt false
+  | stuck => exact absurd hr h1
 
-/-- **vm.try is balanced** (vm.go:854): for every behaviour of the callback — normal, thrown, uncatchable. -/
-theorem tryB_spec {runF : RunF} (cfg : Cfg) (HG : HypG runF) (HA : HypA runF) (b : Beh) (s : Vm) :
-    ApiGood s (tryB runF cfg b s) := by
+theorem popCtx_snoc (s : Vm) (l : List Ctx) (c : Ctx) (h : s.callStack = l ++ [c]) :
+    popCtx s = { restoreCtx c s with callStack := l } := by
+  simp [popCtx, h]
+
+theorem pushCtx_some {s t : Vm} (h : pushCtx s = some t) :
+    t = { s with callStack := s.callStack ++ [saveCtx s] } := by
+  unfold pushCtx at h
+  split at h
+  · simp at h
+  · simp at h; exact h.symm
+
+theorem same_pop_of_push {cp fp : Int} {s s1 : Vm} (h : Same (pushTryFrame cp fp s) s1) :
+    Same s (popTryFrame s1) := by
+  obtain ⟨p1, p2, p3, p4, p5, p6, p7, _⟩ := pushTryFrame_same cp fp s
+  exact ⟨by simp [popTryFrame, h.sp, p1], by simpa [popTryFrame, Vm.regs] using h.regs.trans p2,
+    by simp [popTryFrame, h.stash, p3], by simp [popTryFrame, h.privEnv, p4], by simp [popTryFrame, h.cs, p5],
+    by simp [popTryFrame, h.ts, pushTryFrame], by simp [popTryFrame, h.is, p6], by simp [popTryFrame, h.rs, p7]⟩
+
+/-! ### frames -/
+
+theorem pre_spec (k : FrameKind) (ret : Beh) (s s1 : Vm) (h : k.pre ret s = some s1) :
+    Ext true s s1 ∧ s1.tryStack = s.tryStack ∧ s1.interrupted = s.interrupted ∧ (Inv s → Inv s1) := by
+  cases k with
+  | tmp n =>
+    simp only [FrameKind.pre, Option.some.injEq] at h; subst h
+    exact ⟨(Same.toExt true ⟨rfl, rfl, rfl, rfl, rfl, rfl, rfl, rfl⟩ : Ext true s s) |> fun x =>
+      ⟨x.cs, x.is, x.rs, x.ts⟩, rfl, rfl, fun hi => inv_of_eq rfl rfl hi⟩
+  | call n f =>
+    simp only [FrameKind.pre, Option.map_eq_some_iff] at h
+    obtain ⟨t, ht, rfl⟩ := h
+    have := pushCtx_some ht; subst this
+    refine ⟨⟨⟨[_], rfl, by simp [levelRegs, Ctx.regs, saveCtx, Vm.regs]⟩, ⟨[], by simp⟩, ⟨[], by simp⟩, ⟨[], by simp⟩⟩,
+      rfl, rfl, fun _ => inv_of_ne (by simp)⟩
+  | native n =>
+    simp only [FrameKind.pre, Option.map_eq_some_iff] at h
+    obtain ⟨t, ht, rfl⟩ := h
+    have := pushCtx_some ht; subst this
+    refine ⟨⟨⟨[_], rfl, by simp [levelRegs, Ctx.regs, saveCtx, Vm.regs]⟩, ⟨[], by simp⟩, ⟨[], by simp⟩, ⟨[], by simp⟩⟩,
+      rfl, rfl, fun _ => inv_of_ne (by simp)⟩
+  | forOf c =>
+    simp only [FrameKind.pre, Option.some.injEq] at h; subst h
+    exact ⟨⟨⟨[], by simp [levelRegs, Vm.regs]⟩, ⟨[_], rfl⟩, ⟨[], by simp⟩, ⟨[], by simp⟩⟩, rfl, rfl,
+      fun hi => inv_of_eq rfl rfl hi⟩
+  | ref =>
+    simp only [FrameKind.pre, Option.some.injEq] at h; subst h
+    exact ⟨⟨⟨[], by simp [levelRegs, Vm.regs]⟩, ⟨[], by simp⟩, ⟨[_], rfl⟩, ⟨[], by simp⟩⟩, rfl, rfl,
+      fun hi => inv_of_eq rfl rfl hi⟩
+  | block =>
+    simp only [FrameKind.pre, Option.some.injEq] at h; subst h
+    exact ⟨⟨⟨[], by simp [levelRegs, Vm.regs]⟩, ⟨[], by simp⟩, ⟨[], by simp⟩, ⟨[], by simp⟩⟩, rfl, rfl,
+      fun hi => inv_of_eq rfl rfl hi⟩
+
+theorem post_spec (k : FrameKind) (ret : Beh) (s s1 s2 : Vm) (h : k.pre ret s = some s1)
+    (hs : Same s1 s2) : Same s (k.post s2) ∧ (k.post s2).interrupted = s2.interrupted := by
+  have hr := hs.regs
+  simp only [Vm.regs, Regs.mk.injEq] at hr
+  cases k with
+  | tmp n =>
+    simp only [FrameKind.pre, Option.some.injEq] at h; subst h
+    refine ⟨⟨?_, ?_, hs.stash, hs.privEnv, hs.cs, hs.ts, hs.is, hs.rs⟩, rfl⟩
+    · have := hs.sp; simp only [FrameKind.post] at this ⊢; omega
+    · simpa [FrameKind.post, Vm.regs] using hr
+  | call n f =>
+    simp only [FrameKind.pre, Option.map_eq_some_iff] at h
+    obtain ⟨t, ht, rfl⟩ := h
+    have := pushCtx_some ht; subst this
+    have hcs := hs.cs
+    simp only at hcs
+    simp only [FrameKind.post]
+    rw [popCtx_snoc _ s.callStack _ (by simpa using hcs)]
+    refine ⟨⟨?_, ?_, ?_, ?_, rfl, hs.ts, hs.is, hs.rs⟩, rfl⟩
+    · have := hr.2.1; simp only [restoreCtx] at this ⊢; omega
+    · simp [restoreCtx, saveCtx, Vm.regs]
+    · simp [restoreCtx, saveCtx]
+    · simp [restoreCtx, saveCtx]
+  | native n =>
+    simp only [FrameKind.pre, Option.map_eq_some_iff] at h
+    obtain ⟨t, ht, rfl⟩ := h
+    have := pushCtx_some ht; subst this
+    have hcs := hs.cs
+    simp only at hcs
+    simp only [FrameKind.post]
+    rw [popCtx_snoc _ s.callStack _ (by simpa using hcs)]
+    refine ⟨⟨?_, ?_, ?_, ?_, rfl, hs.ts, hs.is, hs.rs⟩, rfl⟩
+    · have := hs.sp; simp only [restoreCtx] at this ⊢; omega
+    · simp [restoreCtx, saveCtx, Vm.regs]
+    · simp [restoreCtx, saveCtx]
+    · simp [restoreCtx, saveCtx]
+  | forOf c =>
+    simp only [FrameKind.pre, Option.some.injEq] at h; subst h
+    refine ⟨⟨hs.sp, ?_, hs.stash, hs.privEnv, hs.cs, hs.ts, ?_, hs.rs⟩, rfl⟩
+    · simpa [FrameKind.post, Vm.regs] using hr
+    · have := hs.is; simp only [FrameKind.post] at this ⊢; simp [this]
+  | ref =>
+    simp only [FrameKind.pre, Option.some.injEq] at h; subst h
+    refine ⟨⟨hs.sp, ?_, hs.stash, hs.privEnv, hs.cs, hs.ts, hs.is, ?_⟩, rfl⟩
+    · simpa [FrameKind.post, Vm.regs] using hr
+    · have := hs.rs; simp only [FrameKind.post] at this ⊢; simp [this]
+  | block =>
+    simp only [FrameKind.pre, Option.some.injEq] at h; subst h
+    refine ⟨⟨hs.sp, ?_, ?_, hs.privEnv, hs.cs, hs.ts, hs.is, hs.rs⟩, rfl⟩
+    · simpa [FrameKind.post, Vm.regs] using hr
+    · have := hs.stash; simp only [FrameKind.post] at this ⊢; simp [this]
+
+/-- a bracketing frame operation around a sub-behaviour obeys the discipline -/
+theorem frame_good {runF : RunF} (HG : HypG runF) (lf : Nat) (k : FrameKind) (ret body : Beh) (s : Vm)
+    (hI : Inv s) : Good s (step lf runF (.frame k ret body) s) := by
+  simp only [step]
+  cases hp : k.pre ret s with
+  | none => exact ⟨by simpa [GoodCtl] using (Same.refl s).toExt false, by simp [Quiet]⟩
+  | some s1 =>
+    obtain ⟨hext, hts, hq, hinv⟩ := pre_spec k ret s s1 hp
+    have hg := HG body s1 (hinv hI)
+    simp only
+    generalize runF body s1 = r at hg
+    obtain ⟨o, s2⟩ := r
+    obtain ⟨hc, hqq⟩ := hg
+    cases o with
+    | normal =>
+      simp only [GoodCtl] at hc
+      obtain ⟨hsame, hpq⟩ := post_spec k ret s s1 s2 hp hc
+      exact ⟨by simpa [GoodCtl] using hsame, fun _ => by simpa [hpq] using (hqq (by simp)).trans hq⟩
+    | thrown =>
+      simp only [GoodCtl] at hc
+      exact ⟨by simpa [GoodCtl] using hext.trans hc, fun _ => (hqq (by simp)).trans hq⟩
+    | fatal =>
+      simp only [GoodCtl] at hc
+      exact ⟨by simpa [GoodCtl] using hext.weaken.trans hc, by simp [Quiet]⟩
+    | stuck => simp [GoodCtl] at hc
+
+/-- the native probe (a native call that may overflow, throw a catchable payload, or raise Interrupt) -/
+theorem probe_good (id : Nat) (s : Vm) : Good s (probe id s) := by
+  unfold probe
+  cases hp : FrameKind.pre (.native 1) .skip s with
+  | none =>
+    have : Ext false s { s with sp := s.sp + 3 } :=
+      ⟨⟨[], by simp [levelRegs, Vm.regs]⟩, ⟨[], by simp⟩, ⟨[], by simp⟩, ⟨[], by simp⟩⟩
+    exact ⟨by simpa [GoodCtl] using this, by simp [Quiet]⟩
+  | some s1 =>
+    obtain ⟨hext, hts, hq, _⟩ := pre_spec (.native 1) .skip s s1 hp
+    have hobs : Same s1 (observe id s1) := ⟨rfl, rfl, rfl, rfl, rfl, rfl, rfl, rfl⟩
+    obtain ⟨hsame, hpq⟩ := post_spec (.native 1) .skip s s1 (observe id s1) hp hobs
+    have hoq : (observe id s1).interrupted = s.interrupted := hq
+    simp only
+    split
+    · split
+      · split
+        · exact ⟨by simpa [GoodCtl] using hext.trans (hobs.toExt true), fun _ => hoq⟩
+        · refine ⟨?_, by simp [Quiet]⟩
+          have : Same s { FrameKind.post (.native 1) (observe id s1) with interrupted := true } :=
+            ⟨hsame.sp, hsame.regs, hsame.stash, hsame.privEnv, hsame.cs, hsame.ts, hsame.is, hsame.rs⟩
+          simpa [GoodCtl] using this.toExt false
+      · exact ⟨by simpa [GoodCtl] using hsame, fun _ => hpq.trans hoq⟩
+    · exact ⟨by simpa [GoodCtl] using hsame, fun _ => hpq.trans hoq⟩
+
+/-! ### vm.try -/
+
+theorem mkSame {s t : Vm}
+    (h : t.sp = s.sp ∧ t.regs = s.regs ∧ t.stash = s.stash ∧ t.privEnv = s.privEnv ∧
+      t.callStack = s.callStack ∧ t.tryStack = s.tryStack ∧ t.iterStack = s.iterStack ∧
+      t.refStack = s.refStack) : Same s t :=
+  ⟨h.1, h.2.1, h.2.2.1, h.2.2.2.1, h.2.2.2.2.1, h.2.2.2.2.2.1, h.2.2.2.2.2.2.1, h.2.2.2.2.2.2.2⟩
+
+/-- **vm.try is balanced** (vm.go `try`): for every behaviour of the callback and every ending. -/
+theorem tryB_spec {runF : RunF} (HG : HypG runF) (HA : HypA runF) (b : Beh) (s : Vm) (hI : Inv s) :
+    ApiGood s (tryB runF b s) := by
   unfold tryB
-  have hg := HG b (pushTryFrame tryPanicMarker (-1) s)
+  have hg := HG b (pushTryFrame tryPanicMarker (-1) s) (pushTryFrame_inv _ _ hI)
   generalize runF b (pushTryFrame tryPanicMarker (-1) s) = r at hg
   obtain ⟨o, s1⟩ := r
-  obtain ⟨p1, p2, p3, p4, p5, p6, p7⟩ := pushTryFrame_same tryPanicMarker (-1) s
+  obtain ⟨hc, hq⟩ := hg
+  have hpq : (pushTryFrame tryPanicMarker (-1) s).interrupted = s.interrupted := rfl
   have key : ∀ (c : Bool), (o = .thrown → c = true) → o ≠ .normal → o ≠ .stuck →
       Ext c (pushTryFrame tryPanicMarker (-1) s) s1 →
-      ApiGood s (unwindAtMarker runF cfg o s1) := by
-    intro c hc _ _ hext
-    have := unwind_after_body cfg HA o c hc s (pushTryFrame tryPanicMarker (-1) s) s1 tryPanicMarker rfl
+      ApiGood s (unwindAtMarker runF o s1) := by
+    intro c hcc _ _ hext
+    have := unwind_after_body HA o c hcc s (pushTryFrame tryPanicMarker (-1) s) s1 hI
       ((Same.refl _).toExt false) rfl hext _ rfl
-    obtain ⟨a1, a2, _, rest⟩ := this
-    exact mkApiGood ⟨a1, a2, fun _ => trivial, rest⟩
+    obtain ⟨a1, _, a3, a4, a5, a6, a7, a8, a9, a10, a11, a12⟩ := this
+    refine ⟨a1, mkSame ⟨a4, a5, a6, a7, a8, a9, a10, a11⟩, fun hnf => ?_⟩
+    have ho : o = .thrown := by
+      cases hu : (unwindAtMarker runF o s1).1 with
+      | thrown => exact a3 hu
+      | fatal => exact absurd hu hnf
+      | normal => rename_i a2; exact absurd hu ‹_›
+      | stuck => exact absurd hu a1
+    exact (a12 hnf).trans ((hq (by simp [ho])).trans hpq)
   cases o with
   | normal =>
-    simp only [Good] at hg
-    refine ⟨by simp, ?_, fun _ => ?_⟩
-    · exact (Same.toUpTo ⟨by simp [popTryFrame, hg.sp, p1], by simpa [popTryFrame, Vm.regs] using hg.regs.trans p2,
-        by simp [popTryFrame, hg.stash, p3], by simp [popTryFrame, hg.privEnv, p4], by simp [popTryFrame, hg.cs, p5],
-        by simp [popTryFrame, hg.ts, pushTryFrame], by simp [popTryFrame, hg.is, p6], by simp [popTryFrame, hg.rs, p7]⟩)
-    · exact ⟨by simp [popTryFrame, hg.sp, p1], by simpa [popTryFrame, Vm.regs] using hg.regs.trans p2,
-        by simp [popTryFrame, hg.stash, p3], by simp [popTryFrame, hg.privEnv, p4], by simp [popTryFrame, hg.cs, p5],
-        by simp [popTryFrame, hg.ts, pushTryFrame], by simp [popTryFrame, hg.is, p6], by simp [popTryFrame, hg.rs, p7]⟩
-  | stuck => simp [Good] at hg
-  | thrown => exact key true (fun _ => rfl) (by simp) (by simp) hg
-  | fatal => exact key false (by simp) (by simp) (by simp) hg
-  | wrecked => exact key false (by simp) (by simp) (by simp) hg
-
-/-- leave (runtime.go:2836) drains the queue whenever it returns normally -/
-theorem leaveLoop_drains (runF : RunF) : ∀ (lf : Nat) (s : Vm),
-    (leaveLoop runF lf s).1 = .normal → (leaveLoop runF lf s).2.jobQueue = [] := by
-  intro lf
-  induction lf with
-  | zero => intro s h; simp [leaveLoop] at h
-  | succ n ih =>
-    intro s h
-    unfold leaveLoop at h ⊢
-    split at h
-    · rename_i hq; simpa using hq
-    · rename_i hq
-      simp only at h ⊢
-      generalize runJobs runF s.jobQueue { s with jobQueue := [] } = r at h ⊢
-      obtain ⟨o, s1⟩ := r
-      cases o <;> simp_all
+    simp only [GoodCtl] at hc
+    exact ⟨by simp, same_pop_of_push hc, fun _ => by simpa [popTryFrame] using (hq (by simp)).trans hpq⟩
+  | stuck => simp [GoodCtl] at hc
+  | thrown => exact key true (fun _ => rfl) (by simp) (by simp) hc
+  | fatal => exact key false (by simp) (by simp) (by simp) hc
 
 end GojaModel.C03
